@@ -21,11 +21,32 @@ CLAIMED = {
         "technique": "call-site error-discipline analysis over typed HIR (resolved callees, consumption of io::Result values)",
         "design_ref": "DESIGN.md §3 R-IOERR, §4 C15",
     },
+    "C05": {
+        "text": "Decides the termination clause outright for the loop shape involved: every while/loop in "
+                "evaluator.rs/context.rs/app/lwe.rs (whole crate in the thorough tier) has an exit condition that "
+                "reads something the loop writes (or an explicit exit), and each level-walking loop hands the walked "
+                "object to a callee that, on every normally-returning path, moves it to next_context_data (so the "
+                "finite chain is walked strictly downward or the call refuses).",
+        "note": _TB + "Not decided: preservation of the decrypted message, rounding bounds, BGV correction-factor "
+                "arithmetic. Interior mutability / external state in a loop condition yields `unresolved`, never an alarm.",
+        "technique": "loop-variant analysis on typed HIR (read/write sets, Freeze types) + interprocedural must-pass-through",
+        "design_ref": "DESIGN.md §3 R-LOOP, §4 C05",
+    },
+    "C06": {
+        "text": "Decides the refusal clause for invalid / seed-compressed operands: for all public operations of "
+                "Evaluator, Encryptor, Decryptor and the decoders, every Ciphertext/Plaintext operand passes a "
+                "validity guard on every path before its first write or first arithmetic use (pre-effect dominance, "
+                "interprocedural value-identity tracking through clones and the in-place/destination/returning forms).",
+        "note": _TB + "Not decided: bit-identity of the three API forms as values; validity of returned objects as a "
+                "value property. Out-parameters are recognised by the public naming contract (destination/result).",
+        "technique": "guard-dominance dataflow over typed HIR with callee summaries (refusing branches, value identity)",
+        "design_ref": "DESIGN.md §3 R-GUARD/R-FORMS, §4 C06",
+    },
 }
 
 _NYB = "rules designed (DESIGN.md §4) but not built yet in this tree; not claimed until the check exists"
 NOT_APPLICABLE = {
-    "C01": _NYB, "C02": _NYB, "C03": _NYB, "C04": _NYB, "C05": _NYB, "C06": _NYB,
+    "C01": _NYB, "C02": _NYB, "C03": _NYB, "C04": _NYB,
     "C07": "every clause compares a reported integer with exact big-integer arithmetic on runtime phase/noise "
            "values; no necessary condition is visible in the shape of the code (DESIGN.md §5)",
     "C08": _NYB, "C09": _NYB, "C10": _NYB, "C11": _NYB, "C12": _NYB, "C13": _NYB, "C14": _NYB,
